@@ -416,3 +416,61 @@ def finished_mass_on_eos(ctx, f, clause: str, floor: int = 1):
                st.lineno, sample=dict(cleared_under=got, eos_set_under=u(c2.args[0])))
     if n < floor:
         col.undecided(f"{where}: the 'finished path puts its mass on eos' idiom was not found")
+
+
+def initial_state_reaches_the_model(ctx, f: FuncInfo, clause: str):
+    """The search modules take the model's initial state from the caller (`initial_state`; `prev_` inside). By value: the statements of
+    `forward` that define the first argument of the FIRST `lm.update_input(state, history)` call (a backward slice over plain assignments
+    and conditionals) are interpreted (sa/pyinterp.py) once with a state given and once without: the model receives exactly the caller's
+    state when one is given, an empty one otherwise. A state that is accepted and then replaced by a fresh dict restarts a stateful model
+    from its default - every extension probability is conditioned on the wrong context, only for callers that pass a state."""
+    import copy
+    from sa.inteval import NotEvaluable
+    from sa.pyinterp import PyInterp, Raised
+    col = ctx.col
+    rel = f.module.relname
+    where = f"{rel}::{f.qualname}"
+    state_formal = next((p.name for p in f.params[1:] if "prev" in p.name or "state" in p.name), None)
+    # the first update_input call in statement order, with the statements that precede it on the way down
+    def find(block, before):
+        for i_, st in enumerate(block):
+            hit = next((c for c in ast.walk(st) if isinstance(c, ast.Call) and isinstance(c.func, ast.Attribute) and c.func.attr == "update_input"), None)
+            if hit is None:
+                continue
+            pre = before + list(block[:i_])
+            if isinstance(st, (ast.If, ast.For, ast.While, ast.With)):
+                for sub in (st.body, getattr(st, "orelse", [])):
+                    if any(hit is c for s_ in sub for c in ast.walk(s_)):
+                        return find(sub, pre)
+            return hit, pre
+        return None, before
+    call, pre = find(list(f.node.body), [])
+    if call is None or state_formal is None or not call.args:
+        col.undecided(f"{where}: no lm.update_input(state, ...) call / state formal found")
+        return
+    need = {x.id for x in ast.walk(call.args[0]) if isinstance(x, ast.Name)}
+    keep = []
+    for st in reversed(pre):
+        stores = {t.id for x in ast.walk(st) if isinstance(x, (ast.Assign, ast.AnnAssign, ast.AugAssign))
+                  for t in (x.targets if isinstance(x, ast.Assign) else [x.target]) if isinstance(t, ast.Name)}
+        if stores & need and isinstance(st, (ast.Assign, ast.AnnAssign, ast.If)):
+            keep.append(st)
+            need |= {x.id for x in ast.walk(st) if isinstance(x, ast.Name) and isinstance(x.ctx, ast.Load)}
+    keep.reverse()
+    fn = ast.FunctionDef(name="_state", args=ast.arguments(posonlyargs=[], args=[ast.arg(arg=state_formal)], kwonlyargs=[], kw_defaults=[], defaults=[]),
+                         body=[copy.deepcopy(s_) for s_ in keep] + [ast.Return(value=copy.deepcopy(call.args[0]))], decorator_list=[])
+    ast.fix_missing_locations(fn)
+    bad = None
+    try:
+        for given in ({"h": "the caller's state"}, None):
+            got = PyInterp().call_function(fn, [copy.deepcopy(given)], {})
+            want = given if given is not None else {}
+            if got != want and bad is None:
+                bad = (given, got)
+    except (NotEvaluable, Raised, KeyError, TypeError, AttributeError) as e_:
+        col.undecided(f"{where}: the definition of the state handed to lm.update_input is outside the interpreted fragment ({e_})")
+        return
+    col.ob("G12", clause, f"{where}::initial-state-reaches-the-model", bad is None,
+           (f"called {'with the state ' + str(bad[0]) if bad[0] is not None else 'without a state'}, the model's update_input receives {bad[1]}: "
+            f"{'the state the caller passed is dropped and a stateful model starts from its default' if bad[0] is not None else 'expected an empty state'}") if bad else "",
+           rel, call.lineno, sample=dict(statements=len(keep)))
